@@ -4,14 +4,16 @@ Run after any change that loosens a rule.  usage: regress_seeds.py [seed ...]"""
 import sys, os, subprocess, glob, json
 
 VERIF = "/verif"
+WT = os.environ.get("REGRESS_WT", "/repo")      # tree the changes are applied to (a scratch worktree allows parallel runs)
+ENV = dict(os.environ, ARK_REPO=WT)
 ALT = {"C04-A": ["C15"], "C04-r2A": ["C15"], "C10-B": ["C12"], "C11-A": ["C16"], "C19-r2B": ["C03"], "C08-r2B": ["C14"],
        "C14-A": ["C07"], "C14-B": ["C07"], "C14-r2A": ["C01"], "C20-r2B": ["C16"], "C06-r3A": ["C14"], "C01-r3A": ["C14"], "C11-r3A": ["C16"], "C12-r3B": ["C03"], "C19-r3A": ["C01"], "C19-r3B": ["C08"], "C16-r3B": ["C12"]}
 
 
 def main():
     seeds = sys.argv[1:] or sorted(os.path.basename(d) for d in glob.glob(os.path.join(VERIF, "seeded", "C*")))
-    if subprocess.run(["git", "-C", "/repo", "status", "--porcelain"], capture_output=True, text=True).stdout.strip():
-        print("/repo not clean")
+    if subprocess.run(["git", "-C", WT, "status", "--porcelain"], capture_output=True, text=True).stdout.strip():
+        print(WT + " not clean")
         sys.exit(2)
     missed, skipped = [], []
     touched = set()
@@ -19,30 +21,31 @@ def main():
         patch = os.path.join(VERIF, "seeded", s, "patch.diff")
         if not os.path.exists(patch):
             continue
-        if subprocess.run(["git", "-C", "/repo", "apply", "--check", patch], capture_output=True).returncode != 0:
+        if subprocess.run(["git", "-C", WT, "apply", "--check", patch], capture_output=True).returncode != 0:
             skipped.append(s)
             print("%-10s patch does not apply to the current tree" % s)
             continue
-        subprocess.run(["git", "-C", "/repo", "apply", patch], check=True)
+        subprocess.run(["git", "-C", WT, "apply", patch], check=True)
         caught = None
         try:
             for cid in [s[:3]] + ALT.get(s, []):
                 touched.add(cid)
-                r = subprocess.run(["python3", os.path.join(VERIF, "check.py"), cid], capture_output=True, text=True)
+                r = subprocess.run(["python3", os.path.join(VERIF, "check.py"), cid], capture_output=True, text=True, env=ENV)
                 if r.returncode != 0:
                     line = [l for l in r.stdout.splitlines() if l.startswith("FAIL")][:1]
                     caught = (cid, line[0][:150] if line else "")
                     break
         finally:
-            subprocess.run(["git", "-C", "/repo", "checkout", "HEAD", "--", "."], check=True)
+            subprocess.run(["git", "-C", WT, "checkout", "HEAD", "--", "."], check=True)
         if caught:
             print("%-10s caught by %s: %s" % (s, caught[0], caught[1]))
         else:
             missed.append(s)
             print("%-10s MISSED" % s)
     print("missed:", missed, "skipped:", skipped)
-    for cid in sorted(touched):
-        subprocess.run(["python3", os.path.join(VERIF, "check.py"), cid], capture_output=True)
+    if WT == "/repo":
+        for cid in sorted(touched):
+            subprocess.run(["python3", os.path.join(VERIF, "check.py"), cid], capture_output=True)
 
 
 main()
